@@ -40,32 +40,103 @@ def load_known_findings():
     return findings
 
 
+def _load(contract_modules, edits):
+    from pyvc.source import Program
+    from pyvc.contracts import REGISTRY
+    for cm in contract_modules:
+        importlib.import_module(cm)
+    prog = Program(edits=edits) if edits else Program()
+    return prog, REGISTRY
+
+
 def _worker(job):
     """Runs in a forked pool process."""
-    (qualname, contract_modules, timeout_ms, edits, active_cases) = job
+    (qualname, contract_modules, timeout_ms, edits, active_cases, prefix) = job
     try:
-        from pyvc.source import Program
-        from pyvc.contracts import REGISTRY
         from pyvc.verify import verify_contract
-        for cm in contract_modules:
-            importlib.import_module(cm)
-        prog = Program(edits=edits) if edits else Program()
+        prog, REGISTRY = _load(contract_modules, edits)
         con = REGISTRY.get(qualname)
         if con is None:
             return {"function": qualname, "status": "crash", "error": "no contract registered", "obligations": []}
-        return verify_contract(prog, REGISTRY, con, timeout_ms=timeout_ms, active_cases=active_cases)
+        return verify_contract(prog, REGISTRY, con, timeout_ms=timeout_ms, active_cases=active_cases, prefix=prefix)
     except Exception:
         return {"function": qualname, "status": "crash", "error": traceback.format_exc(), "obligations": []}
 
 
+def _frontier_worker(job):
+    (qualname, contract_modules, edits, depth) = job
+    try:
+        from pyvc.verify import compute_frontier
+        from pyvc.values import Unsupported
+        prog, REGISTRY = _load(contract_modules, edits)
+        return (qualname, compute_frontier(prog, REGISTRY, REGISTRY.get(qualname), depth), None)
+    except Exception:
+        return (qualname, None, traceback.format_exc())
+
+
+def _split_depths(functions, contract_modules):
+    from pyvc.contracts import REGISTRY
+    for cm in contract_modules:
+        importlib.import_module(cm)
+    return dict((q, REGISTRY.get(q).split_depth) for q in functions if REGISTRY.get(q) is not None)
+
+
+def merge_results(parts):
+    """Merge the results of the sub-tree jobs of one function."""
+    if len(parts) == 1:
+        return parts[0]
+    out = dict(parts[0])
+    out["obligations"] = []
+    for k in ("paths", "dead_paths", "branch_queries"):
+        out[k] = sum(p.get(k) or 0 for p in parts)
+    out["solver_s"] = round(sum(p.get("solver_s") or 0 for p in parts), 3)
+    out["wall_s"] = round(max(p.get("wall_s") or 0 for p in parts), 3)
+    for k in ("edges", "executed", "used_contracts", "assumed"):
+        out[k] = sorted(set(x for p in parts for x in (p.get(k) or [])))
+    covers = {}
+    for p in parts:
+        for c, ok in (p.get("covers") or {}).items():
+            covers[c] = covers.get(c, False) or ok
+    out["covers"] = covers
+    out["subtrees"] = len(parts)
+    for p in parts:
+        if p["status"] != "ok":
+            out["status"] = p["status"]
+            out["error"] = p.get("error")
+        out["obligations"].extend(p.get("obligations", []))
+    return out
+
+
 def verify_functions(functions, contract_modules, timeout_ms, edits=None, active_cases=None, procs=None):
-    jobs = [(q, contract_modules, timeout_ms, edits, active_cases or {}) for q in functions]
-    procs = procs or min(16, max(1, len(jobs)))
-    if len(jobs) == 1 or os.environ.get("VERIF_SERIAL"):
-        return [_worker(j) for j in jobs]
-    ctx = multiprocessing.get_context("fork")
-    with ctx.Pool(procs) as pool:
-        return pool.map(_worker, jobs, chunksize=1)
+    depths = _split_depths(functions, contract_modules)
+    serial = bool(os.environ.get("VERIF_SERIAL"))
+    mp = multiprocessing.get_context("fork")
+    prefixes = dict((q, [None]) for q in functions)
+    fjobs = [(q, contract_modules, edits, d) for q, d in depths.items() if d]
+    if fjobs:
+        if serial:
+            fres = [_frontier_worker(j) for j in fjobs]
+        else:
+            with mp.Pool(min(16, len(fjobs))) as pool:
+                fres = pool.map(_frontier_worker, fjobs, chunksize=1)
+        for (q, pres, err) in fres:
+            if pres:
+                prefixes[q] = pres
+            # on error the function is verified unsplit, which reports the problem properly
+    jobs = []
+    for q in functions:
+        for pre in prefixes[q]:
+            jobs.append((q, contract_modules, timeout_ms, edits, active_cases or {}, pre))
+    if serial or len(jobs) == 1:
+        raw = [_worker(j) for j in jobs]
+    else:
+        with mp.Pool(procs or min(16, len(jobs))) as pool:
+            raw = pool.map(_worker, jobs, chunksize=1)
+    out = []
+    for q in functions:
+        parts = [r for (j, r) in zip(jobs, raw) if j[0] == q]
+        out.append(merge_results(parts))
+    return out
 
 
 def native_replay(function, obligation, rec, contract_modules, repo, edits=None):
@@ -262,6 +333,22 @@ def run_property(prop, tier, seed):
         printed.add(key)
         lines.append("KNOWN-FINDING: property=%s %s [%s case=%s]" % (pid, fd["text"] if fd else ob["name"], base, case))
     viol_files = []
+    # one report per obligation name (prefer a counter-model that reproduced natively)
+    by_name = {}
+    tried = {}
+    for ob, fn in violations:
+        cur = by_name.get(ob["name"])
+        if cur is not None and cur[0].get("native", {}).get("reproduced") is True:
+            continue
+        if ob["kind"] != "bounded" and "native" not in ob:
+            if tried.get(ob["name"], 0) >= 4:
+                continue
+            tried[ob["name"]] = tried.get(ob["name"], 0) + 1
+            ob["native"] = native_replay(fn, ob["name"], ob, prop.CONTRACT_MODULES, repo)
+        if cur is None or ob.get("native", {}).get("reproduced") is True:
+            by_name[ob["name"]] = (ob, fn)
+    n_violating_paths = len(violations)
+    violations = list(by_name.values())
     for ob, fn in violations:
         safe = re.sub(r"[^A-Za-z0-9_.@-]+", "_", ob["name"])[:150]
         path = os.path.join(replay_dir, "%s-%s.json" % (pid, safe))
